@@ -50,20 +50,20 @@ fn c06_seek_total() {
     let got = s.seek(arg);
     match (want, got) {
         (Some(w), Ok(g)) => {
-            assert!(g == w);
-            assert!(sacc::position(&s) == w);
-            assert!(sacc::total_len(&s) == total_len);
+            assert!(g == w, "C06: seek returned another position than the byte-vector model");
+            assert!(sacc::position(&s) == w, "C06: position after an accepted seek");
+            assert!(sacc::total_len(&s) == total_len, "C06/C10: a seek changed the stream's length");
         }
         (None, Err(e)) => {
-            assert!(e.kind() == ErrorKind::InvalidInput);
+            assert!(e.kind() == ErrorKind::InvalidInput, "C06/C10: a seek outside [0, len] must fail with InvalidInput");
             // C10: refused seek changes nothing
-            assert!(sacc::position(&s) == cur);
-            assert!(sacc::buf_offset(&s) == off);
-            assert!(bacc::pos(sacc::buffer(&s)) == pos);
-            assert!(bacc::cap(sacc::buffer(&s)) == cap);
-            assert!(sacc::total_len(&s) == total_len);
+            assert!(sacc::position(&s) == cur, "C06/C10: a refused seek moved the position");
+            assert!(sacc::buf_offset(&s) == off, "C10: a refused seek moved the buffer window");
+            assert!(bacc::pos(sacc::buffer(&s)) == pos, "C10: a refused seek moved the cursor");
+            assert!(bacc::cap(sacc::buffer(&s)) == cap, "C10: a refused seek changed the filled length");
+            assert!(sacc::total_len(&s) == total_len, "C06/C10: a refused seek changed the stream's length");
         }
-        _ => panic!("seek Ok/Err disagrees with the byte-vector model"),
+        _ => panic!("C06/C10: seek Ok/Err disagrees with the byte-vector model"),
     }
     kani::cover!(want.is_none(), "refused seek reachable");
     kani::cover!(want.is_some(), "accepted seek reachable");
